@@ -8,3 +8,7 @@ mod virtual_inventory;
 pub use market::{MarketModel, PositionOptions, SwapPricingKind};
 pub use position::PositionModel;
 pub use virtual_inventory::VirtualInventoryModel;
+
+/// Verification hook (see `clock::verif`).
+#[cfg(gmsol_verif)]
+pub use clock::verif as clock_verif;
